@@ -36,6 +36,70 @@ def _model_dict(m):
     return out
 
 
+def _symbols(f, cache):
+    """names of the uninterpreted constants/functions occurring in f"""
+    out = set()
+    todo = [f]
+    seen = set()
+    while todo:
+        x = todo.pop()
+        i = x.get_id()
+        if i in seen:
+            continue
+        seen.add(i)
+        if z3.is_quantifier(x):
+            todo.append(x.body())
+            continue
+        if z3.is_app(x):
+            d = x.decl()
+            if d.kind() == z3.Z3_OP_UNINTERPRETED:
+                out.add(d.name())
+            todo.extend(x.children())
+    return out
+
+
+_COMMON = ("in.self", "dyntype", "alloc")
+
+
+def _has_q(f):
+    todo = [f]
+    seen = set()
+    while todo:
+        x = todo.pop()
+        if x.get_id() in seen:
+            continue
+        seen.add(x.get_id())
+        if z3.is_quantifier(x):
+            return True
+        todo.extend(x.children())
+    return False
+
+
+def _relevant(assertions, hops):
+    """all quantifier-free assertions + the quantified ones within `hops` symbol-sharing steps of the (negated) goal"""
+    if len(assertions) < 4:
+        return None
+    goal = assertions[-1]
+    syms = [_symbols(a, None) for a in assertions]
+    core = {x for x in syms[-1] if not x.startswith(_COMMON)}
+    keep = set([len(assertions) - 1])
+    for _ in range(hops):
+        new = set()
+        for i, a in enumerate(assertions[:-1]):
+            if i in keep:
+                continue
+            if _has_q(a) and (syms[i] & core):
+                keep.add(i)
+                new |= {x for x in syms[i] if not x.startswith(_COMMON)}
+        if _ == 0:
+            first = set(new)
+        core |= new if _ < hops - 1 else set()
+    out = [a for i, a in enumerate(assertions) if i in keep or not _has_q(a)]
+    if len(out) == len(assertions):
+        return None
+    return out
+
+
 def _solve(task):
     oid, idx, smt2, timeout_ms, want_model, use_cvc5 = task
     t0 = time.time()
@@ -51,6 +115,19 @@ def _solve(task):
             model = _model_dict(s.model())
         if r == z3.unknown:
             detail = s.reason_unknown()
+            # relevance portfolio: dropping hypotheses is sound for `unsat`; with fewer quantified facts the
+            # instantiation search often terminates at once.  A `sat` answer of a weakened query proves nothing.
+            for hops in (1, 2):
+                sub = _relevant(list(s.assertions()), hops)
+                if sub is None:
+                    break
+                s2 = z3.Solver(ctx=ctx)
+                s2.set("timeout", max(2000, timeout_ms // 3))
+                for f in sub:
+                    s2.add(f)
+                if s2.check() == z3.unsat:
+                    res, backend, detail = "unsat", f"z3(relevance-{hops})", ""
+                    break
     except Exception as e:
         res, detail = "unknown", f"z3 error: {e}"
     if res == "unknown" and use_cvc5:
